@@ -229,8 +229,12 @@ def o4(h, st):
     nm = NoiseModel()
     nm._quantum_errors[g.name] = [("depol", p)]
     cc = h.call(TC, "translate_c_to_cirq", mk_circuit([g], 3), nm)
+    ok_last = bool(cc.ops) and cc.ops[-1].gate.name == "depolarize" and len(cc.ops[-1].gate.params) >= 1
+    h.check("last operation is the depolarising channel", ok_last, detail=str(cc.ops[-1].gate.name if cc.ops else None))
+    if not ok_last:
+        h.done()
+        return
     q = cc.ops[-1].gate.params[0]
-    h.check("last operation is the depolarising channel", cc.ops[-1].gate.name == "depolarize")
     # Pauli transfer: component sigma != 1 is multiplied by (1-q) + q/(4^k-1) * sum_{P != 1} chi(P, sigma), chi = +1 if P commutes with sigma else -1
     letters = "IXYZ"
     words = ["".join(w) for w in itertools.product(letters, repeat=k)]
